@@ -4,7 +4,7 @@ From JP Require Export Json Tree Eval Peg Grammar GrammarPinned Text Actions WF 
 Open Scope string_scope.
 
 (* ---------- the user-function library of the harness ---------- *)
-Definition lib_filter_names : list string := ["twice"; "wrap"; "tn"; "fail"; "fstr"; "id"; "k3"; "relay"; "zfail"].
+Definition lib_filter_names : list string := ["twice"; "wrap"; "tn"; "fail"; "fstr"; "id"; "k3"; "relay"; "zfail"; "ufail"].
 Definition lib_agg_names : list string := ["cnt"; "first"; "arr"; "afail"; "amax"; "c5"; "azfail"].
 
 Definition lib_ffun (name : string) (v : value) : option value :=
